@@ -2,7 +2,7 @@
 import ast
 from collections import deque
 
-from ..core import (AnalysisError, path, unparse, norm_test, facts_at, walk_own, split_assumes,
+from ..core import (AnalysisError, Unrecognised, path, unparse, norm_test, facts_at, walk_own, split_assumes,
                     const_str, root_name, MUTATORS)
 from ..events import name_defs, single_def
 from ..report import Ob
@@ -63,10 +63,10 @@ def r_reader_state(prog, tier):
         ys = [n for n in cfg.eval_nodes() if n.kind == 'stmt' and isinstance(n.ast, ast.Expr)
               and isinstance(n.ast.value, ast.Yield)]
         if len(ys) != 1:
-            raise AnalysisError('%s: %d yield statements' % (f.fq, len(ys)))
+            raise Unrecognised('%s: %d yield statements' % (f.fq, len(ys)))
         y = ys[0]
         if not y.loops:
-            raise AnalysisError('%s: yield outside a loop' % f.fq)
+            raise Unrecognised('%s: yield outside a loop' % f.fq)
         main = y.loops[0]
         cross = dict((nm2, 'feeds the sentence id (running number, or id read at the start of the sentence)')
                      for nm2 in _sid_sources(f))
@@ -183,7 +183,7 @@ class ReaderModel(object):
         loops = [n for n in cfg.eval_nodes() if n.kind == 'iter' and isinstance(n.ast.target, ast.Tuple)
                  and len(n.ast.target.elts) == 2 and not n.loops]
         if len(loops) != 1:
-            raise AnalysisError('brackets: token loop `for lextoken, lexclass in lexer` not found')
+            raise Unrecognised('brackets: token loop `for lextoken, lexclass in lexer` not found')
         loop_ast = loops[0].ast
         self.kw = f.kwarg
         # identify the control variables by their role, whatever they are called
@@ -214,7 +214,7 @@ class ReaderModel(object):
                         roles.setdefault('state', cand)
         missing = [r for r in ('queue', 'state', 'level', 'term_cnt', 'cnt') if r not in roles]
         if missing:
-            raise AnalysisError('brackets: control variables %s not identified' % missing)
+            raise Unrecognised('brackets: control variables %s not identified' % missing)
         roles['lextoken'], roles['lexclass'] = [unparse(x) for x in loop_ast.target.elts]
         self.roles = roles
         inv = dict((v, k) for k, v in roles.items())
@@ -241,7 +241,7 @@ class ReaderModel(object):
         need = {'state': 0, 'level': 0, 'term_cnt': 1, 'queue': 'list'}
         for k, v in need.items():
             if self.ctrl.get(roles[k]) != v:
-                raise AnalysisError('brackets: control variable `%s` (%s) is not initialised to %r before the loop'
+                raise Unrecognised('brackets: control variable `%s` (%s) is not initialised to %r before the loop'
                                     % (roles[k], k, v))
         import copy
         self.after = [self._canon().visit(copy.deepcopy(st)) for st in self._after_loop()]
@@ -280,7 +280,7 @@ class ReaderModel(object):
                     vals = [self.value(x, env) for x in r.elts]
                     res = self.value(l, env) in vals
                     return res if isinstance(op, ast.In) else not res
-                raise AnalysisError('brackets: membership test `%s` not modelled' % unparse(e))
+                raise Unrecognised('brackets: membership test `%s` not modelled' % unparse(e))
             a, b = self.value(l, env), self.value(r, env)
             if isinstance(op, ast.Eq):
                 return a == b
@@ -297,7 +297,7 @@ class ReaderModel(object):
         if isinstance(e, ast.Subscript) and isinstance(e.value, ast.Name) and e.value.id == self.kw:
             k = const_str(e.slice)
             return k in env['opts']
-        raise AnalysisError('brackets: condition `%s` not modelled' % unparse(e))
+        raise Unrecognised('brackets: condition `%s` not modelled' % unparse(e))
 
     def value(self, e, env):
         if isinstance(e, ast.Constant):
@@ -313,7 +313,7 @@ class ReaderModel(object):
                 return 'TOKEN-TEXT'
             if e.id in env['locals']:
                 return env['locals'][e.id]
-            raise AnalysisError('brackets: value of `%s` not modelled' % e.id)
+            raise Unrecognised('brackets: value of `%s` not modelled' % e.id)
         if isinstance(e, ast.Call) and unparse(e.func) == 'len' and unparse(e.args[0]) == 'queue':
             return env['qlen']
         if isinstance(e, ast.IfExp):
@@ -340,7 +340,7 @@ class ReaderModel(object):
         """index i of `queue[i]` as used, checking it exists"""
         i = self.value(e.slice, env)
         if not isinstance(i, int):
-            raise AnalysisError('brackets: queue index `%s` not modelled' % unparse(e))
+            raise Unrecognised('brackets: queue index `%s` not modelled' % unparse(e))
         need = -i if i < 0 else i + 1
         if env['qlen'] < need:
             env['acts'].append(('INDEX-ERROR', unparse(e)))
@@ -378,7 +378,7 @@ class ReaderModel(object):
                     return
                 if fn == 'queue.append':
                     if not (len(v.args) == 1 and self.prog.callee(v.args[0], self.f) == ('trees', 'Tree.__init__')):
-                        raise AnalysisError('brackets: `%s` not modelled' % unparse(st))
+                        raise Unrecognised('brackets: `%s` not modelled' % unparse(st))
                     env['qlen'] += 1
                     env['acts'].append(('PUSH',))
                     return
@@ -393,37 +393,37 @@ class ReaderModel(object):
                     j = self._qidx(v.args[0], env) if isinstance(v.args[0], ast.Subscript) else None
                     env['acts'].append(('ATTACH', i, j))
                     return
-            raise AnalysisError('brackets: statement `%s` not modelled' % unparse(st)[:60])
+            raise Unrecognised('brackets: statement `%s` not modelled' % unparse(st)[:60])
         if isinstance(st, ast.AugAssign) and isinstance(st.target, ast.Name):
             nm = st.target.id
             d = self.value(st.value, env)
             if nm in ('level', 'term_cnt', 'cnt', 'state') and isinstance(d, int) and isinstance(st.op, (ast.Add, ast.Sub)):
                 env[nm] = env[nm] + d if isinstance(st.op, ast.Add) else env[nm] - d
                 return
-            raise AnalysisError('brackets: `%s` not modelled' % unparse(st))
+            raise Unrecognised('brackets: `%s` not modelled' % unparse(st))
         if isinstance(st, ast.Assign) and len(st.targets) == 1:
             t = st.targets[0]
             if isinstance(t, ast.Name):
                 if t.id == 'state':
                     v = self.value(st.value, env)
                     if not isinstance(v, int):
-                        raise AnalysisError('brackets: state assigned a non-constant')
+                        raise Unrecognised('brackets: state assigned a non-constant')
                     env['state'] = v
                     return
                 if t.id in ('term_cnt', 'level', 'cnt'):
                     v = self.value(st.value, env)
                     if not isinstance(v, int):
-                        raise AnalysisError('brackets: `%s` not modelled' % unparse(st))
+                        raise Unrecognised('brackets: `%s` not modelled' % unparse(st))
                     env[t.id] = v
                     return
                 if t.id == 'queue':
                     if not (isinstance(st.value, ast.List) and not st.value.elts):
-                        raise AnalysisError('brackets: `%s` not modelled' % unparse(st))
+                        raise Unrecognised('brackets: `%s` not modelled' % unparse(st))
                     env['qlen'] = 0
                     env['acts'].append(('RESETQ',))
                     return
                 if t.id in (self.tokvar, self.clsvar):
-                    raise AnalysisError('brackets: the loop variables are reassigned')
+                    raise Unrecognised('brackets: the loop variables are reassigned')
                 env['locals'][t.id] = self.value(st.value, env)
                 return
             if isinstance(t, ast.Attribute) and t.attr == 'parent' and isinstance(t.value, ast.Subscript) \
@@ -445,11 +445,11 @@ class ReaderModel(object):
             # option-governed post-processing (replace_parens); no control variable may be touched
             for s in ast.walk(st):
                 if isinstance(s, ast.Name) and isinstance(s.ctx, ast.Store) and s.id in ('state', 'level', 'queue', 'term_cnt'):
-                    raise AnalysisError('brackets: control variable written inside a for loop')
+                    raise Unrecognised('brackets: control variable written inside a for loop')
             return
         if isinstance(st, ast.Try) or isinstance(st, ast.While):
-            raise AnalysisError('brackets: `%s` reached outside the disco branch' % type(st).__name__)
-        raise AnalysisError('brackets: statement `%s` not modelled' % unparse(st)[:60])
+            raise Unrecognised('brackets: `%s` reached outside the disco branch' % type(st).__name__)
+        raise Unrecognised('brackets: statement `%s` not modelled' % unparse(st)[:60])
 
     def step(self, cls, ctrl, opts):
         """One token of class `cls` in control state ctrl=(state, level, qlen, term_cnt, cnt)."""
@@ -692,14 +692,14 @@ def _lexer_rules(prog):
     cfg = f.cfg
     wl = [n for n in cfg.eval_nodes() if n.kind == 'test' and isinstance(n.owner, ast.While)]
     if len(wl) != 1:
-        raise AnalysisError('bracket_lexer: main loop not found')
+        raise Unrecognised('bracket_lexer: main loop not found')
     W = wl[0]
     chv = None
     nt = norm_test(W.ast, True)
     if nt[0] == 'cmp' and nt[2] == '!=':
         chv = nt[1] if nt[3] in ("''", '""') else nt[3]
     if not chv:
-        raise AnalysisError('bracket_lexer: loop condition is not `<char> != ""`')
+        raise Unrecognised('bracket_lexer: loop condition is not `<char> != ""`')
     adv = [n for n in cfg.eval_nodes() if n.kind == 'stmt' and unparse(n.ast) == '%s = %s.read(1)' % (chv, f.params[0])
            and W.id in n.loops]
     ok = bool(adv) and cfg.in_every_iteration(W.id, adv[0].id)
@@ -716,7 +716,7 @@ def _lexer_rules(prog):
                 and unparse(n.ast.value.func).endswith('.getvalue') and W.id in n.loops:
             vals[unparse(n.ast.value.func.value)] = unparse(n.ast.targets[0])
     if len(vals) != 2:
-        raise AnalysisError('bracket_lexer: the two buffers are not read at the top of the loop')
+        raise Unrecognised('bracket_lexer: the two buffers are not read at the top of the loop')
     # classify yields inside the loop by branch
     branches = {'bracket': [], 'space': [], 'other': []}
     for n in cfg.eval_nodes():
@@ -753,7 +753,7 @@ def _lexer_rules(prog):
                     else:
                         wb = bk
     if not tb or not wb or tb == wb:
-        raise AnalysisError('bracket_lexer: buffers not identified')
+        raise Unrecognised('bracket_lexer: buffers not identified')
     tv, wv = vals[tb], vals[wb]
     flush_t = [('YIELD', "(%s, 'TOKEN')" % tv, 'len(%s)' % tv), ('FRESH', tb)]
     flush_w = [('YIELD', "(%s, 'WS')" % wv, 'len(%s)' % wv), ('FRESH', wb)]
@@ -814,7 +814,7 @@ def _disco_rules(prog):
             if k is not None:
                 a = k
     if a is None or b is None:
-        raise AnalysisError('discobracket index encoding/decoding not found (writer %s, reader %s)' % (a, b))
+        raise Unrecognised('discobracket index encoding/decoding not found (writer %s, reader %s)' % (a, b))
     ok = a + b == 0
     obs.append(Ob('R-AUTOMATON/A4', 'treeinput.brackets', 'the discobracket reader decodes token indices the way the writer '
                   'encodes them', ok, 'writer writes num%+d, reader computes index%+d' % (a, b) if ok else
@@ -829,7 +829,7 @@ def _disco_rules(prog):
               and isinstance(n.ast.targets[0], ast.Subscript) and isinstance(n.ast.targets[0].value, ast.Name)
               and isinstance(n.ast.targets[0].slice, ast.Name) and unparse(n.ast.value) == tokv and len(n.loops) >= 2]
     if not stores:
-        raise AnalysisError('discobracket reader: position -> word map not found')
+        raise Unrecognised('discobracket reader: position -> word map not found')
     for s in stores:
         pv = unparse(s.ast.targets[0].slice)
         facts = [x[0] for x in facts_at(cfg, s.id) if cfg.nodes[x[1]].loops == s.loops
